@@ -485,6 +485,14 @@ func fpCheckAccounting(r *vh.Report, key string, rp map[string]interface{}, out 
 	if s.TotalFunctions != matched+added+removed || s.Added != added || s.Removed != removed || s.Preserved != preserved || s.Modified != modified || s.RenamedFunctions != renamed || s.Preserved+s.Modified != matched {
 		bad = append(bad, fmt.Sprintf("summary %+v disagrees with the listed entries (matched=%d added=%d removed=%d preserved=%d modified(incl. renamed)=%d renamed=%d)", s, matched, added, removed, preserved, modified, renamed))
 	}
+	// a matched pair whose fingerprints differ carries the result of the instruction matching: if
+	// nothing at all was matched, every instruction is unpaired and must be listed
+	for _, fd := range out.Functions {
+		if (fd.Status == "modified" || fd.Status == "renamed") && !fd.FingerprintMatch && fd.OldFingerprint != "OVERSIZED" && fd.NewFingerprint != "OVERSIZED" &&
+			fd.OldFingerprint != "" && fd.NewFingerprint != "" && fd.MatchedNodes == 0 && len(fd.AddedOps) == 0 && len(fd.RemovedOps) == 0 {
+			bad = append(bad, fmt.Sprintf("matched pair %s (%s) has different fingerprints but carries no matched nodes and no added/removed operations at all", fd.Function, fd.Status))
+		}
+	}
 	nonName := 0
 	for _, tm := range out.TopologyMatches {
 		if !tm.MatchedByName {
@@ -753,15 +761,25 @@ func TestVerifC19(t *testing.T) {
 		// a renamed function next to an ADDED near copy that differs only in a literal the default
 		// policy abstracts (same fingerprint, same structure) and whose name sorts first
 		for _, lc := range []struct{ id, body, alt string }{
+			{"int-literal/int", "\tif a > 3 {\n\t\treturn a * 1000\n\t}\n\treturn 1\n", "\tif a > 3 {\n\t\treturn a * 2000\n\t}\n\treturn 1\n"},
 			{"string-literal", "\tif a > 3 {\n\t\treturn \"hello\"\n\t}\n\treturn \"x\"\n", "\tif a > 3 {\n\t\treturn \"world\"\n\t}\n\treturn \"x\"\n"},
 			{"string-literal-other-length", "\tif a > 3 {\n\t\treturn \"hello\"\n\t}\n\treturn \"x\"\n", "\tif a > 3 {\n\t\treturn \"hello, world\"\n\t}\n\treturn \"x\"\n"},
+			// literals the call profile and the topology's string list do not tell apart: a long string
+			// that differs only beyond the point where literals are cut, one that starts with a byte that
+			// is not UTF-8
+			{"long-string-differs-late", "\tif a > 3 {\n\t\treturn \"" + strings.Repeat("q", 5000) + "A\"\n\t}\n\treturn \"x\"\n", "\tif a > 3 {\n\t\treturn \"" + strings.Repeat("q", 5000) + "B\"\n\t}\n\treturn \"x\"\n"},
+			{"string-not-utf8", "\tif a > 3 {\n\t\treturn \"\\xffone\"\n\t}\n\treturn \"x\"\n", "\tif a > 3 {\n\t\treturn \"\\xfftwo\"\n\t}\n\treturn \"x\"\n"},
 		} {
-			ld := filepath.Join(scratch, "litcopy-"+lc.id)
+			ld := filepath.Join(scratch, "litcopy-"+strings.ReplaceAll(lc.id, "/", "-"))
 			os.MkdirAll(filepath.Join(ld, "o"), 0o755)
 			os.MkdirAll(filepath.Join(ld, "n"), 0o755)
 			lo, ln := filepath.Join(ld, "o", "f.go"), filepath.Join(ld, "n", "f.go")
-			os.WriteFile(lo, []byte("package p\n\nfunc target(a int) string {\n"+lc.body+"}\n"), 0o644)
-			os.WriteFile(ln, []byte("package p\n\nfunc zRenamed(a int) string {\n"+lc.body+"}\n\nfunc aCopy(a int) string {\n"+lc.alt+"}\n"), 0o644)
+			ret := "string"
+			if strings.HasSuffix(lc.id, "/int") {
+				ret = "int"
+			}
+			os.WriteFile(lo, []byte("package p\n\nfunc target(a int) "+ret+" {\n"+lc.body+"}\n"), 0o644)
+			os.WriteFile(ln, []byte("package p\n\nfunc zRenamed(a int) "+ret+" {\n"+lc.body+"}\n\nfunc aCopy(a int) "+ret+" {\n"+lc.alt+"}\n"), 0o644)
 			lout, lerr := ComputeDiff(RealFileSystem{}, lo, ln)
 			r.Eval()
 			r.Nontrivial("literal-near-copy/" + lc.id)
